@@ -65,20 +65,84 @@ def run(ctx):
         chk.ob("C16.a", f"{push.path} [RNG bound]", ok, f"replacement index drawn from 0..({detail}) = 0..=i" if ok else f"the exclusive bound handed to the RNG is `{detail}`: Algorithm R needs (pre-increment count) + 1 — with the count itself position i is kept with k/i instead of k/(i+1), and a zero-capacity reservoir samples the empty range 0..0 and panics", fr[0].loc() if fr else push.loc())
         # ---------------- C16.b fill / replace
         stores = [o for o in atomic_ops(push) if o[1] == "store"]
-        okf = len(stores) == 2
-        if okf:
-            fill = [o for o in stores if "fetch_add" in sym_str(o[2]) and "fastrand" not in sym_str(o[2])]
-            repl = [o for o in stores if "fastrand" in sym_str(o[2])]
-            okf = len(fill) == 1 and len(repl) == 1
-            if okf:
-                gf = gates(b, fill[0][0].bb)
-                gr = gates(b, repl[0][0].bb)
-                def lt_len(dd, who):
-                    dd = strip_sym(dd)
-                    return dd[0] == "bin" and dd[1] == "Lt" and who in sym_str(dd[2]) and "len" in sym_str(dd[3])
-                okf = any(lab is True and lt_len(dd, "fetch_add") and "fastrand" not in sym_str(dd) for dd, lab in gf)
-                okf = okf and any(lab is True and lt_len(dd, "fastrand") for dd, lab in gr) and any(lab is False and lt_len(dd, "fetch_add") and "fastrand" not in sym_str(dd) for dd, lab in gr)
-                okf = okf and all(sym_is_call(strip_sym(o[3][1]), "to_bits") and is_param(strip_sym(strip_sym(o[3][1])[2][0]), 1) for o in stores)
+        sy_ = Sym(push)
+
+        def lt_len(dd, who):
+            dd = strip_sym(dd)
+            return isinstance(dd, tuple) and dd and dd[0] == "bin" and dd[1] == "Lt" and who in sym_str(dd[2]) and "len" in sym_str(dd[3])
+
+        def index_alts(l, at_bb, depth=0):
+            """Where the index of a `values[i]` can come from: [(block deciding the alternative, operand, filter closures)].
+            Follows `if let Some(i) = slot` back to the definitions of `slot` (Some(x), None, Some(x).filter(pred))."""
+            out = []
+            ds = b.defs().get(l, [])
+            if len(ds) == 1 and ds[0][0] == "assign" and ds[0][3]["rv"]["k"] == "use" and depth < 5:
+                src = ds[0][3]["rv"]["a"].get("copy") or ds[0][3]["rv"]["a"].get("move")
+                if src is not None and src.get("pr") and "Some" in repr(src["pr"]):
+                    for d in b.defs().get(src["l"], []):
+                        out += option_alts(d, depth + 1)
+                    return out
+                if src is not None and not src.get("pr") and src["l"] > b.argc and len(b.defs().get(src["l"], [])) == 1 and b.defs()[src["l"]][0][0] == "assign":
+                    return index_alts(src["l"], at_bb, depth + 1)
+            return [(at_bb, {"copy": {"l": l}}, ())]
+
+        def option_alts(d, depth):
+            if d[0] == "assign":
+                rv = d[3]["rv"]
+                if rv["k"] == "agg" and rv.get("variant") == "Some" and rv.get("ops"):
+                    return [(d[1], rv["ops"][0], ())]
+                if rv["k"] == "agg" and rv.get("variant") == "None":
+                    return []
+                if rv["k"] == "use":
+                    q = rv["a"].get("copy") or rv["a"].get("move")
+                    if q is not None and not q.get("pr") and depth < 5:
+                        out = []
+                        for d2 in b.defs().get(q["l"], []):
+                            out += option_alts(d2, depth + 1)
+                        return out
+            if d[0] == "call" and path_is(d[3].get("resolved") or "", "Option<T>::filter") and depth < 5:
+                q = d[3]["args"][0].get("copy") or d[3]["args"][0].get("move")
+                out = []
+                if q is not None and not q.get("pr"):
+                    for d2 in b.defs().get(q["l"], []):
+                        for bb_, op_, fl_ in option_alts(d2, depth + 1):
+                            out.append((d[1], op_, fl_ + (strip_sym(sy_.operand(d[3]["args"][1])),)))
+                return out
+            return [(d[1], None, ())]
+
+        fills, repls, okf, whyf = [], [], bool(stores), ""
+        for o in stores:
+            rdef = b.defs().get((o[0].args[0].get("move") or o[0].args[0].get("copy") or {}).get("l"), [])
+            idxl = None
+            if len(rdef) == 1 and rdef[0][0] == "assign" and rdef[0][3]["rv"]["k"] == "ref":
+                idxl = next((e["idx"] for e in rdef[0][3]["rv"]["p"].get("pr") or [] if isinstance(e, dict) and "idx" in e), None)
+            if idxl is None or "'values'" not in repr(o[2]):
+                okf, whyf = False, "a store whose slot is not values[<index>]"
+                break
+            if not (sym_is_call(strip_sym(o[3][1]), "to_bits") and is_param(strip_sym(strip_sym(o[3][1])[2][0]), 1)):
+                okf, whyf = False, "a slot is written with something other than value.to_bits()"
+                break
+            here = gates(b, o[0].bb)
+            for bb_, op_, filters in index_alts(idxl, o[0].bb):
+                if op_ is None:
+                    okf, whyf = False, "cannot see where a slot index comes from"
+                    continue
+                v = strip_sym(sy_.operand(op_))
+                g_ = here + (gates(b, bb_) if bb_ != o[0].bb else [])
+                if "fastrand" in sym_str(v):
+                    in_range = any(lab is True and lt_len(dd, "fastrand") for dd, lab in g_)
+                    for f_ in filters:
+                        cf = u.fn(f_[5]) if f_[0] == "agg" and f_[1] == "closure" else None
+                        r_ = strip_sym(Sym(cf).local(0)) if cf else None
+                        if r_ is not None and r_[0] == "bin" and r_[1] == "Lt" and "('arg', 1" in repr(r_[2]) and "len" in sym_str(r_[3]) and "'values'" in repr(r_[3]):
+                            in_range = True
+                    not_filling = any(lab is False and lt_len(dd, "fetch_add") and "fastrand" not in sym_str(dd) for dd, lab in g_)
+                    repls.append(in_range and not_filling)
+                elif sym_is_call(v, "fetch_add") or "fetch_add" in sym_str(v):
+                    fills.append(any(lab is True and lt_len(dd, "fetch_add") and "fastrand" not in sym_str(dd) for dd, lab in g_))
+                else:
+                    okf, whyf = False, f"a slot index that is neither the claimed position nor the drawn one ({sym_str(v)[:50]})"
+        okf = okf and fills == [True] and repls == [True]
         chk.ob("C16.b", f"{push.path} [fill / replace]", okf, "idx < len: store at idx; otherwise store at the drawn index only if it is < len; value = value.to_bits()" if okf else "push does not fill while idx < capacity and otherwise replace only in-range drawn indexes", push.loc())
     fr_f = u.fn(f"{R}::fastrand")
     if need(chk, "C16.a", "fastrand", fr_f):
@@ -186,19 +250,28 @@ def run(ctx):
             sides.append(fl_["name"])
     FLAG = f"'{flag_f}'"
     if cons and pushf:
+        # the value of the flag before the flip: what was loaded, or what a flipping read-modify-write returned
         pt = side_table(pushf, lambda dd: sym_is_call(dd, "load") and FLAG in repr(dd))
-        ct = side_table(cons, lambda dd: sym_is_call(dd, "load") and FLAG in repr(dd))
+        ct = side_table(cons, lambda dd: sym_is_call(dd, "load", "fetch_xor", "fetch_not") and FLAG in repr(dd))
         ok = len(pt) == 2 and set(pt.values()) == set(sides) and len(sides) == 2 and ct == pt
         chk.ob("C16.b", f"{ASR} [push ~ consume side table]", ok, "use_primary == true <-> primary in both push and consume (consume drains the side that was active)" if ok else f"push uses {pt}, consume drains {ct}: consume must drain the side that pushes were going to before the flip", cons.loc())
         b = cons.body
         lk = [c for c in nonforeign_calls(cons) if c.fn is cons and c.is_("Mutex<T>::lock")]
-        st = [o for o in atomic_ops(cons) if is_plain_write(o) and FLAG in repr(o[2])]
+        flag_ops = [o for o in atomic_ops(cons) if o[0].fn is cons and FLAG in repr(o[2])]
+        st = [o for o in flag_ops if is_plain_write(o)]
+        rmw = [o for o in flag_ops if (o[1] == "fetch_xor" and strip_sym(o[3][1])[:3] == ("const", "bool", True)) or o[1] == "fetch_not"]
+        flip = None  # the call that makes the other side active
+        if len(st) == 1 and not rmw and len(flag_ops) == 2:
+            v = strip_sym(st[0][3][1])
+            if v[0] == "un" and v[1] == "Not" and sym_is_call(strip_sym(v[2]), "load"):
+                flip = st[0][0]
+        elif len(rmw) == 1 and len(flag_ops) == 1:
+            flip = rmw[0][0]  # one atomic flip that hands back the side active until now
         dr = [c for c in nonforeign_calls(cons) if c.fn is cons and c.is_("Reservoir::drain")]
         cb = [c for c in nonforeign_calls(cons) if c.fn is cons and c.is_("FnMut::call_mut", "FnOnce::call_once") and is_param(sym_through(arg_syms(c)[0]), 1)]
-        ok = len(lk) == 1 and len(st) == 1 and len(dr) in (1, 2) and len(cb) == 1 and all(b.dominates(lk[0].bb, x.bb) for x in [st[0][0]] + dr + cb)
+        ok = len(lk) == 1 and flip is not None and len(dr) in (1, 2) and len(cb) == 1 and all(b.dominates(lk[0].bb, x.bb) for x in [flip] + dr + cb)
         if ok:
-            v = strip_sym(st[0][3][1])
-            ok = v[0] == "un" and v[1] == "Not" and sym_is_call(strip_sym(v[2]), "load") and all(b.dominates(st[0][0].bb, d_.bb) for d_ in dr)
+            ok = all(b.dominates(flip.bb, d_.bb) for d_ in dr)
             # the guard lives across the callback: no drop of the guard before the callback
             uw = [c for c in nonforeign_calls(cons) if c.fn is cons and c.is_("Result<T, E>::unwrap", "Result<T, E>::unwrap_or_else", "Result<T, E>::expect")]
             if uw:
